@@ -224,7 +224,7 @@ class C11(core.Check):
         "Python's codecs for EUC/Big5/GBK are not modelled (only urwid's own byte-range logic)",
         "calc_trim_text: start_col < end_col <= width of the line",
         "the UnicodeWarning of calc_width's fallback is not modelled (its value is)",
-        "on invalid UTF-8 only totality is demanded (in-range width queries never raise); which '?' replacement widths result is correspondence-only",
+        "on invalid UTF-8 the oracle demands totality (in-range width queries never raise) and that decode_one consumes a lead byte plus continuation bytes only; which '?' replacement widths result is correspondence-only",
         "wide (double-byte) mode counts one column per byte: characters whose euc-jp encoding has 3 bytes are outside the oracle; "
         "double-byte texts are also generated byte by byte (single < 0x80; lead 0x81-0xFE, trail 0x40-0x7E or 0x80-0xFE) to reach every range boundary",
     ]
@@ -466,6 +466,21 @@ class C11(core.Check):
                 continue
             if (f in (1, 2) and 0 <= a <= b <= L) or (f in (5, 8) and 0 <= a < L):
                 return [f"{names[f]}{tuple(q[1:])} on the bytes {list(text)} raised error {r[0]}"]
+        # a multi-byte character is a lead byte followed by continuation bytes: whatever decode_one consumes beyond the
+        # first byte must be continuation bytes (it must not swallow an ASCII byte or the lead byte of the next character),
+        # and a sequence longer than one byte starts with a lead byte
+        for q, r in zip(queries(case, text, B, mode), res["r"]):
+            f, a = q[0], q[1]
+            if f != 8 or r[0] or not (0 <= a < L):
+                continue
+            n = r[2]
+            if not (a + 1 <= n <= min(L, a + 4)):
+                return [f"decode_one({a}) on the bytes {list(text)} returned next position {n}"]
+            if n > a + 1 and text[a] < 0xC0:
+                return [f"decode_one({a}) on the bytes {list(text)} consumed {n - a} bytes starting at a non-lead byte"]
+            for t in range(a + 1, n):
+                if not (0x80 <= text[t] < 0xC0):
+                    return [f"decode_one({a}) on the bytes {list(text)} consumed byte {t} (0x{text[t]:02x}), which is not a continuation byte"]
         return []
 
     def oracle_text(self, case, res):
@@ -873,6 +888,14 @@ class C11(core.Check):
         for n in range(1, 3 if quick else 4):
             for tup in itertools.product(DB, repeat=n):
                 yield {"k": "text", "mode": "db", "enc": "gbk", "chars": [list(c) for c in tup], "cols": 5}
+        # malformed UTF-8 next to well-formed characters: every ordered pair (thorough: triple) of fragments
+        FR = [[0x61], [0xE4, 0xB8, 0x96], [0xE4, 0xB8], [0xE4], [0x80], [0xC3, 0xA9], [0xC3], [0xF0, 0x9F, 0x98, 0x80],
+              [0xF0, 0x9F, 0x98], [0xF0, 0x9F], [0xF0], [0xED, 0xA0, 0x80], [0xC0, 0x80], [0xFF]]
+        for n in (2,) if quick else (2, 3):
+            for tup in itertools.product(FR, repeat=n):
+                b = [x for fr in tup for x in fr]
+                if len(b) <= 9:
+                    yield {"k": "text", "mode": "raw", "enc": "utf-8", "b": b, "cols": 4}
         yield from self.raw_cases(rng, 400 if quick else 4000)
         yield from self.ate_cases(rng, tier)
         yield from self.rle_cases(rng, 1500 if quick else 15000)
@@ -962,6 +985,12 @@ C11.level_text = (
     "model and replayed on the implementation from corpus/C11): move_prev_char(b'\\x80a',0,1) = -1, "
     "move_prev_char(b'\\x80\\x80',0,2) raises IndexError (start not on a boundary), move_next_char(b'\\xa4',0,1) = 2 in "
     "double-byte mode (lone lead byte) - outside the property, which speaks of strings and their encoded forms.  "
+    "By character index (Proofs/WidthInterface.v, the interface sibling properties import; stable names wi_<mode>_<fact>): on "
+    "well-formed double-byte text within_double_byte is exactly 0/1/2 per the lead/trail structure from any earlier boundary, "
+    "move_next_char/move_prev_char land on the neighbouring boundaries, calc_width is additive, calc_text_pos returns a "
+    "boundary with width <= the requested column and maximal; the same for UTF-8 (boff) and closed forms for single-byte.  "
+    "decode_one on ANY bytes consumes a lead byte plus continuation bytes only.  The dumped width table is sorted, disjoint, "
+    "covers 0..0x10FFFF, and the model's width of every code point is the width of the one interval containing it.  "
     "TIE: get_char_width, decode_one's arithmetic, calc_trim_text, the DEC tables AND within_double_byte, "
     "calc_string_text_pos, calc_text_pos, move_next_char, move_prev_char, is_wide_char, the fallback loop of calc_width, "
     "rle_get_at, rle_len, rle_subseg are re-translated from the source on every run (py2v); the extracted model runs the "
